@@ -31,6 +31,7 @@ type Directives struct {
 	Opt    bool   // opt: reply carries an OPT with options
 	NsTTL  int64  // nsttl<N>: TTL of the authority and additional records (-1 = same rule as the answers)
 	Pad    int    // pad<N>: one extra TXT answer with exactly N octets of text (N <= 255): response sizes in 1-byte steps
+	Fin    bool   // fin: stream transports close the connection right after the reply has been written
 	Deep   int    // deep<N>: a CNAME chain of nested names followed by N A records owned by a long label under the
 	// deepest name: compresses to ~16 bytes per record with full name compression, but to ~80 bytes per
 	// record for an encoder that bounds the depth of compression pointer chains
@@ -59,6 +60,9 @@ func ParseDirectives(firstLabel string) Directives {
 			continue
 		case "ttlm":
 			d.MixTTL = true
+			continue
+		case "fin":
+			d.Fin = true
 			continue
 		}
 		if n, ok := num("rc"); ok {
